@@ -452,10 +452,12 @@ fn format(opt: opt::Opt) -> Result<i32> {
                     let path = entry.path().to_owned(); // TODO: stop to_owned?
                     let opt = opt.clone();
 
-                    if seen_files.contains(&path) {
+                    // The same file can be reached through several arguments under different spellings
+                    // (`a.lua`, `./a.lua`, `dir/../a.lua`): compare the canonical paths
+                    let canonical_path = path.canonicalize().unwrap_or_else(|_| path.clone());
+                    if !seen_files.insert(canonical_path) {
                         continue;
                     }
-                    seen_files.insert(path.clone());
 
                     if path.is_file() {
                         // If the user didn't provide a glob pattern, we should match against our default one
